@@ -174,10 +174,17 @@ def run_property(pid, tier, seed, only=None, use_cache=True, keep=False, write_e
                         pending_replays.append((o, entry, repo_dir, unwind, unwindset, stubbing))
                     results[o["id"]] = r
         # replays last: they rebuild with other flags
+        skip_replay = os.environ.get("VERIF_SKIP_REPLAY") == "1"
+        replayed_ok = 0
         for (o, entry, repo_dir, unwind, unwindset, stubbing) in pending_replays:
             kh = match_known(o["id"], entry.get("failed_checks") or [], known)
             if kh is not None:
                 continue  # listed finding: no need to regenerate its replay on every run
+            if skip_replay:
+                # evaluation aid (tools/eval_seed.sh): the native replay costs ~8 min per obligation;
+                # the run is then reported as UNREPLAYED, never as a VIOLATION line
+                results[o["id"]]["replay"] = {"reproduced": None, "note": "native replay skipped (VERIF_SKIP_REPLAY=1)", "path": None, "skipped": True}
+                continue
             results[o["id"]]["replay"] = replay(pid, o, entry, repo_dir, unwind, unwindset, stubbing, log_path)
     finally:
         if not keep:
@@ -194,6 +201,7 @@ def run_property(pid, tier, seed, only=None, use_cache=True, keep=False, write_e
 
     # ---- classify over the property ---------------------------------------------------------
     violations = []
+    unreplayed = []
     known_hits = []
     for o in obs:
         r = results.get(o["id"]) or dict(verdict="inconclusive", detail="no result")
@@ -208,6 +216,9 @@ def run_property(pid, tier, seed, only=None, use_cache=True, keep=False, write_e
                 known_hits.append((o, r, kh))
                 continue
             rp = r.get("replay") or {}
+            if rp.get("skipped"):
+                unreplayed.append((o, r))
+                continue
             if rp.get("reproduced") is not True:
                 inconclusive.append((o, "counterexample not reproduced natively (" + str(rp.get("note", "")) + "); solver said: " + str(r.get("detail"))))
                 r["verdict"] = "inconclusive"
@@ -235,6 +246,10 @@ def run_property(pid, tier, seed, only=None, use_cache=True, keep=False, write_e
                 continue
             seen.add(k["id"])
             print(f"KNOWN-FINDING: property={pid} {k['id']}: {k['what']}")
+    for o, r in unreplayed:
+        print(f"SOLVER-COUNTEREXAMPLE (native replay skipped) property={pid} obligation={o['id']}: {str(r.get('detail'))[:300]}")
+    if unreplayed and not violations:
+        return 3
     if violations:
         for o, r in violations:
             path = (r.get("replay") or {}).get("path") or write_text_replay(pid, o, r)
